@@ -17,6 +17,7 @@ Games ==
       [] Family = "tiny" -> DescribeAll("tiny", Pick(K, TinyGames) \cup Pick(K, TinyChains))
       [] Family = "nonabs" -> DescribeAll("nonabs", Pick(K, NonAbsGames))
       [] Family = "diag" -> DescribeAll("diag", Pick(K, DiagGames))
+      [] Family = "samerow" -> DescribeAll("samerow", Pick(K, SameRowGames))
       [] Family = "slow" -> DescribeAll("slow", Pick(K, SlowGames))
       [] Family = "bigrew" -> DescribeAll("bigrew", Pick(K, BigRewGames))
       [] Family = "ties" -> DescribeAll("ties", Pick(K, TieGames))
